@@ -18,3 +18,18 @@ package dtlshandshake
 //@ ensures result-is-extract: result1 == nil ==> retErr("keyschedule.HkdfExtract", 1) == nil && sameSlice(result0, retBytes("keyschedule.HkdfExtract", 0))
 //@ ensures extract-order: called("keyschedule.DeriveSecret") ==> calledBefore("keyschedule.DeriveSecret", "keyschedule.HkdfExtract") || ncalls("keyschedule.HkdfExtract") == 1
 //@ end
+
+// C07, DTLS 1.3 application data (RFC 9147 4.1: epoch 0 is unprotected, 1/2 are early/handshake keys; application data
+// is sent under the current write epoch): every queued application record is stamped with the connection's current
+// *local (write)* epoch before the batch is handed to the record writer, and the batch written is the one stamped.
+//@ func postHandshake.writeApplicationData
+// (inline and without requires: the caller startPostHandshakeCommand (C20) keeps seeing the body; the nil-safety of
+// the queued packets is not claimed here, a stamped packet is one the loop body dereferenced)
+//@ inline
+//@ watch postHandshakeCommand.Write
+//@ loop #1: stamped-so-far: forall(0, idx, func(i int) bool { return command.Packets[i].Record.Header.Epoch == old(p.state.Common.LocalEpoch()) })
+//@ loop #1: frame: p.state == old(p.state) && p.state.Common == old(p.state.Common) && p.state.Common.LocalEpoch() == old(p.state.Common.LocalEpoch())
+//@ ensures written-once: ncalls("postHandshakeCommand.Write") == 1
+//@ ensures written-batch-is-the-stamped-one: sameSlice(argAs("postHandshakeCommand.Write", 1, command.Packets), command.Packets)
+//@ ensures stamped-with-write-epoch: atCall("postHandshakeCommand.Write", forall(0, len(command.Packets), func(i int) bool { return command.Packets[i].Record.Header.Epoch == old(p.state.Common.LocalEpoch()) }))
+//@ end
